@@ -1581,17 +1581,21 @@ func (c *CAManager) SignCertificate(csr *x509.CertificateRequest, spiffeID conne
 		// so they will have a dummy trust domain in the CSR.
 		trustDomain := signingID.Host()
 		if agentID.Host != trustDomain {
-			originalURI := agentID.URI()
+			original := *agentID
 
 			agentID.Host = trustDomain
 
-			// recreate the URIs list
+			// recreate the URIs list. The URI is recognized by what it parses
+			// to, not by its spelling: an escaped segment parses to the same
+			// identity but does not compare equal as a string, and the
+			// certificate would keep the trust domain of the request.
 			uris := make([]*url.URL, len(csr.URIs))
 			for i, uri := range csr.URIs {
-				if originalURI.String() == uri.String() {
-					uris[i] = agentID.URI()
-				} else {
-					uris[i] = uri
+				uris[i] = uri
+				if parsed, err := connect.ParseCertURI(uri); err == nil {
+					if id, ok := parsed.(*connect.SpiffeIDAgent); ok && *id == original {
+						uris[i] = agentID.URI()
+					}
 				}
 			}
 
